@@ -3,6 +3,7 @@ from typing import Any
 from fastapi import APIRouter, Query, Request
 from fastapi.responses import HTMLResponse, JSONResponse
 
+from pynenc.exceptions import InvocationNotFoundError
 from pynmon.app import get_pynenc_instance, templates
 
 router = APIRouter(prefix="/broker", tags=["broker"])
@@ -43,13 +44,24 @@ async def queue_view(
     queue_size = app.broker.count_invocations()
 
     # Warning: This operation has overhead as we retrieve and re-queue messages
-    for _ in range(min(limit, queue_size)):
-        if invocation_id := app.broker.retrieve_invocation():
-            pending_invocations.append(app.state_backend.get_invocation(invocation_id))
-
-    for invocation in pending_invocations:
-        # Re-route the invocation back to the broker
-        app.broker.route_invocation(invocation.invocation_id)
+    retrieved_ids = []
+    try:
+        for _ in range(min(limit, queue_size)):
+            if invocation_id := app.broker.retrieve_invocation():
+                retrieved_ids.append(invocation_id)
+        for invocation_id in retrieved_ids:
+            try:
+                pending_invocations.append(
+                    app.state_backend.get_invocation(invocation_id)
+                )
+            except InvocationNotFoundError:
+                # queued id without a stored invocation (e.g. state backend purged):
+                # nothing to display, but the message must go back to the queue
+                continue
+    finally:
+        # Re-route every retrieved message back to the broker, whatever happened above
+        for invocation_id in retrieved_ids:
+            app.broker.route_invocation(invocation_id)
 
     return templates.TemplateResponse(
         request,
